@@ -388,7 +388,7 @@ def run(ctx, args):
             if m[0] == "tag" or not p:
                 cases.append({"a": t, "b": m, "kind": kind, "path": p})
     # (2) random trees: unmutated copy, clone, re-parse, and a sample of their single-point mutants (each kind)
-    n_trees = 40 if quick else 1500
+    n_trees = 150 if quick else 2500
     per_tree = 4 if quick else 8
     for _ in range(n_trees):
         t = gen_tree(rng, 3) if rng.random() < 0.93 else gen_node(rng, 0)
